@@ -20,3 +20,11 @@ Proof.
   - exact (H _ Hn).
   - rewrite Hn. reflexivity.
 Qed.
+
+(* outside transactions: the change of journal mode at connect time needs the
+   exclusive lock and is refused at once while any other connection holds a
+   lock (the busy timeout is not consulted): the code must go round again.
+   (Finding F58: it did not; of several first commands in a fresh project all
+   but one failed with "database is locked".) *)
+Lemma busy_immediate_retried : forallb snd busy_immediate = true.
+Proof. vm_compute. reflexivity. Qed.
